@@ -13,7 +13,7 @@ from . import common, mapfam
 
 ID = 'C06'
 LEVEL = 'exploration'
-QUOTA = {'quick': 700, 'thorough': 8000}
+QUOTA = {'quick': 900, 'thorough': 8000}
 BUDGET = {'quick': 100, 'thorough': 900}
 RULE = ('scenario = pair of mapping runs over one world at bootstrap factor 1: (A) base query, (B) its rows permuted, '
         'sub-set, extended with new cells or duplicated under new ids; chunk size, worker count, transport, encoding '
